@@ -4,7 +4,8 @@ From RV Require Export Base.Util Base.IntStr Model.HandBack.
 
 Record hbcase := {
   h_kind : bgkind; h_n : Z; h_partitioned : bool; h_phases : list phase; h_fault : fault; h_start : bgw;
-  h_errs : list (list bool); h_final : bgw; h_panic : bool
+  h_errs : list (list bool); h_final : bgw; h_panic : bool;
+  h_init_claimed : bool; h_init_hpa_off : bool; h_init_rs_held : bool     (* read back after the Initialize phase *)
 }.
 Definition case := hbcase.
 
@@ -24,8 +25,22 @@ Definition c05_handed_back (c : case) : bool :=
   if negb (h_panic c) && negb (h_partitioned c) && fresh (h_start c) && all_phases_done (h_errs c)
   then handed_back (h_kind c) (h_start c) (h_final c) else true.
 
+(* what Initialize leaves behind, by the model *)
+Definition after_init (c : case) : bgw := snd (scenario (h_kind c) (h_n c) (h_partitioned c) [PInit] (h_fault c) (h_start c)).
+Definition prepared (k : bgkind) (w : bgw) : bool * bool * bool :=
+  (w_claimed w, match w_hpa w with Some false => false | _ => true end,
+   match k, w_rs_min_ready w with BGDeploy, Some m => m =? max_ready | _, _ => true end).
+Definition init_corresponds (c : case) : bool :=
+  let '(a, b, d) := prepared (h_kind c) (after_init c) in
+  Bool.eqb a (h_init_claimed c) && Bool.eqb b (h_init_hpa_off c) && Bool.eqb d (h_init_rs_held c).
+(* C06: the release marker is the LAST thing Initialize writes -- once it is there (a later attempt returns at once), the HPA is
+   detached and the stable ReplicaSet is held back, whichever call failed on the way *)
+Definition c06_marker_means_prepared (c : case) : bool :=
+  if h_init_claimed c && fresh (h_start c) && negb (h_panic c) then h_init_hpa_off c && h_init_rs_held c else true.
+
 Definition judge (c : case) : list verdict :=
-  [ if corresponds c then VOk else VMismatch;
+  [ if corresponds c && init_corresponds c then VOk else VMismatch;
+    clause "C06_bluegreen_release_marker_means_prepared" (c06_marker_means_prepared c);
     clause "C05_bluegreen_workload_handed_back_as_configured" (c05_handed_back c);
     clause "C06_bluegreen_handed_back_whatever_call_failed" (match h_fault c with Some _ => c05_handed_back c | None => true end);
     clause "C09_bluegreen_control_plane_does_not_panic" (negb (h_panic c)) ].
